@@ -1257,3 +1257,79 @@ fn h_enc_writer_finalize() {
     }
     core::mem::forget(w);
 }
+
+// ------------------------------------------------------------------------------------------
+// H-RECIPIENTS: candidate private keys are tried in turn (C07)
+// ------------------------------------------------------------------------------------------
+static mut RK_OUTCOME: [u8; 3] = [0; 3]; // 0 = Ok(None), 1 = Ok(Some(key_i)), 2 = Err
+static mut RK_CALLS: usize = 0;
+fn stub_retrieve_key(_p: &MultiRecipientPersistent, _k: &StaticSecret) -> Result<Option<[u8; 32]>, Error> {
+    let i = unsafe { RK_CALLS };
+    unsafe { RK_CALLS = i + 1 };
+    kani::assume(i < 3);
+    match unsafe { RK_OUTCOME[i] } {
+        0 => Ok(None),
+        1 => Ok(Some([0x10 + i as u8; 32])),
+        _ => Err(Error::HKDFInvalidKeyLength),
+    }
+}
+
+//@ props: C07 C03
+//@ functions: layers::encrypt::EncryptionReaderConfig::load_persistent
+//@ bounds: 0..=3 candidate private keys; for each, the unwrap attempt yields no match / a key / an error, all combinations; any archive nonce
+//@ stubs: crypto::ecc::retrieve_key -> scripted outcome per candidate (its real body is decided by h_ecc_*); alloc::fmt::format
+//@ outside: more than 3 candidates (the loop body is the same)
+//@ replay: verif_replay_ecc::recipients nkeys:usize o0:u8 o1:u8 o2:u8
+#[kani::proof]
+#[kani::unwind(34)]
+#[kani::stub(alloc::fmt::format, nofmt)]
+#[kani::stub(crate::crypto::ecc::retrieve_key, stub_retrieve_key)]
+fn h_enc_recipients() {
+    let nkeys: usize = kani::any();
+    kani::assume(nkeys <= 3);
+    let o: [u8; 3] = [kani::any(), kani::any(), kani::any()];
+    kani::assume(o[0] <= 2 && o[1] <= 2 && o[2] <= 2);
+    unsafe {
+        RK_OUTCOME = o;
+        RK_CALLS = 0;
+    }
+    let mut keys: Vec<StaticSecret> = Vec::with_capacity(3);
+    let mut i = 0;
+    while i < 3 {
+        if i < nkeys {
+            keys.push(StaticSecret::from([i as u8; 32]));
+        }
+        i += 1;
+    }
+    let nonce: [u8; NONCE_SIZE] = kani::any();
+    let persist = EncryptionPersistentConfig {
+        multi_recipient: crate::crypto::ecc::verif_ecc::empty_persistent(),
+        nonce,
+    };
+    let mut cfg = EncryptionReaderConfig { private_keys: keys, encrypt_parameters: None, failsafe_mode: FailSafeReaderDecryptionMode::OnlyAuthenticatedData };
+    kani::cover!(nkeys == 3 && o[0] == 0 && o[1] == 2 && o[2] == 1, "the right key is the last candidate, after a miss and an error");
+    kani::cover!(nkeys == 0, "no private key supplied");
+    let r = cfg.load_persistent(&persist);
+    // first candidate (in order) that unwraps
+    let mut first: Option<usize> = None;
+    let mut j = 0;
+    while j < 3 {
+        if j < nkeys && first.is_none() && o[j] == 1 {
+            first = Some(j);
+        }
+        j += 1;
+    }
+    match r {
+        Ok(()) => {
+            assert!(first.is_some(), "archive opened although no candidate key unwrapped the archive key");
+            let (k, n) = cfg.encrypt_parameters.unwrap();
+            assert!(k == [0x10 + first.unwrap() as u8; 32] && n == nonce, "parameters are the unwrapped key and the header nonce");
+        }
+        Err(e) => {
+            core::mem::forget(e);
+            assert!(first.is_none(), "a recipient key in the candidate list was not accepted (position must not matter)");
+            assert!(cfg.encrypt_parameters.is_none());
+        }
+    }
+    core::mem::forget(cfg);
+}
